@@ -198,6 +198,22 @@ claim("C19", "other",
       "static analysis: partial evaluation on symbolic data along representative paths + exact reference comparison",
       "DESIGN.md §5 C19")
 
+claim("C06", "other",
+      "hiten's table builders are interpreted from their syntax trees at a bounded degree (6; 9 thorough): psi equals the "
+      "binomials, every multi-index of each degree occurs exactly once, and pack / decode / fill / encode agree with an "
+      "independent reference of the documented layout on all 924 positions; bit probes extract each site's field table "
+      "(5 disjoint 6-bit fields, capacity 63 >= global degree 30, top bit < 32); _combinations is checked on the whole table "
+      "domain. Race freedom of every njit(parallel=True) function is an effect rule on prange bodies (thread-private rows "
+      "selected by get_thread_id and fully reduced, outputs indexed by the loop variable, no nested parallel kernel, no "
+      "callee writing a shared argument): holds under every schedule. Every kernel and list operation is interpreted on "
+      "generic symbolic coefficient arrays (degrees <= 3-4) with 3 simulated threads under a scrambled thread-id assignment "
+      "and compared with sympy (product, derivative, integral, Poisson bracket, evaluation, truncated multiply/power, "
+      "linear/affine substitution with a non-symmetric symbolic matrix).",
+      "Trusted: kpe/numpy-fragment semantics, numba prange semantics per documentation, sympy. Bounded by the degrees "
+      "interpreted (the kernels are degree-uniform loops). Not decided: rounding error magnitudes.",
+      "static analysis: partial evaluation on generic symbolic coefficients + effect (race) analysis of prange bodies",
+      "DESIGN.md §5 C06")
+
 PENDING = ["C02", "C03", "C04", "C05", "C06", "C07", "C08", "C09", "C10", "C11", "C12", "C13", "C14", "C15",
            "C16", "C17", "C18", "C19", "C20"]
 
